@@ -19,6 +19,7 @@ FOCUS = {
     "C15": ["hook", "hook", "deferred", "lifecycle"],
     "C06": ["deferred", "hook"],
     "C14": ["at", "at", "mixed"],
+    "C09": ["hook", "deferred", "lifecycle", "mixed"],
 }
 COUNTS = {"quick": 160, "thorough": 3000}
 SIM = {"quick": 100, "thorough": 1200}
@@ -158,6 +159,7 @@ NONTRIVIAL = {
     "C10": lambda tr, rec: True,
     "C14": lambda tr, rec: any(e["ev"] == "at" and e["in"]["acts"] and e["pst"]["active"]
                                for e in tr["ev"]),
+    "C09": lambda tr, rec: rec["cnt"]["open"] > 0,
 }
 
 RULES = {
@@ -170,6 +172,8 @@ RULES = {
     "C15": "histories with prints ending inside and outside episodes; non-trivial = the "
            "after-print hook closed an open episode at least once",
     "C06": "plugin histories with deferred codes; non-trivial = at least one command deferred",
+    "C09": "plugin histories (scripts and deferred codes configured through the settings, "
+           "incl. comment-only script lines); non-trivial = at least one episode opened",
     "C14": "plugin histories whose @-command action table comes from the plugin settings "
            "(default, custom or empty table, applied by SettingsUpdated); non-trivial = a "
            "configured action arrives while a print is active",
